@@ -214,7 +214,7 @@ class SubsequenceSearch:
             distance = dtw.distance
             lb_keogh = dtw.lb_keogh
         if k is None or self.keep_all_distances:
-            self.distances = np.zeros((len(self.s),))
+            self.distances = np.full((len(self.s),), np.inf)
             # if self.use_lb:
             #     self.compute_lbs()
         import heapq
